@@ -433,6 +433,9 @@ where
                             // the contents of the new one.
                             stream.ldap = new_stream.ldap;
                             stream.rx = new_stream.rx;
+                            // The result of the page just read is not the result of the
+                            // search: finish() before the end must report cancellation.
+                            stream.res = None;
                             continue 'ent;
                         }
                     }
